@@ -46,6 +46,7 @@ GROUPS = {
     'Formats': dict(kind='custom', flags=RELEASE, fn='gen_formats'),
     'Override': dict(kind='custom', flags=RELEASE + ('-DMI_MALLOC_OVERRIDE', '-DMI_SHARED_LIB', '-DMI_SHARED_LIB_EXPORT'), fn='gen_override'),
     'Commit': dict(kind='custom', flags=RELEASE, fn='gen_commit'),
+    'ArenaGen': dict(kind='custom', flags=RELEASE, fn='gen_arena'),
     'Entry': dict(kind='translate', flags=RELEASE, names=ENTRY, mem=False, explicit_in=('mi_posix_memalign',), namespace='GenE'),
 }
 
@@ -269,6 +270,12 @@ def gen_commit(tu, spec):
     """the commit-bookkeeping functions of src/segment.c over GenC.SegSt (extract/masktr.py)"""
     import masktr
     return masktr.translate(tu)
+
+
+def gen_arena(tu, spec):
+    """mi_arena_try_alloc_at / mi_arena_purge / mi_arena_schedule_purge of src/arena.c over GenR.ArSt (extract/arenatr.py)"""
+    import arenatr
+    return arenatr.translate(tu)
 
 
 def _alias_from_source(repo, fdecl):
